@@ -26,7 +26,7 @@ for _pid in PENDING:
 # Lean theorem modules added by the main model on top of what each Cxx.py declares
 EXTRA_MODULES = {
     "C05": ["Proofs.C05Render"],
-    "C07": ["Proofs.C07", "Proofs.C07Lines"],
+    "C07": ["Proofs.C07", "Proofs.C07Lines", "Proofs.C07Source"],
     "C08": ["Proofs.C08", "Proofs.C08Source"],
     "C10": ["Proofs.C10", "Proofs.C10Source"],
     "C11": ["Proofs.C11"],
